@@ -157,8 +157,11 @@ def general_cases(rnd, n, prefix, targets=True, reports=True, ors=False, rich=Tr
         # selectors are evaluated on a graph rdflib parsed separately: blank nodes get other labels there
         # (known finding KF.C10.bnodeselector), so shape-map cases are drawn over IRI nodes
         shapemap = targets and rnd.random() < .2
-        if not shapemap and rnd.random() < .2:
+        r = rnd.random()
+        if not shapemap and r < .2:
             T = gen.dense_graph(rnd)
+        elif r > .9:
+            T = gen.multi_graph(rnd)
         else:
             T = gen.general_graph(rnd, max_nodes=max_nodes, rich_literals=rich, bnodes=not shapemap)
         cfg = gen.switches(rnd, inverse=inverse, ors=ors)
